@@ -159,7 +159,7 @@ def insertBy (lt : Range α → Range α → Bool) (x : Range α) : List (Range 
   | [] => [x]
   | y :: ys => if lt x y then x :: y :: ys else y :: insertBy lt x ys
 
-/-- Stand-in for `std::sort(ranges_.begin(), ranges_.end(), rangeComp_)` (Range.h:542):
+/-- Stand-in for `std::sort(ranges_.begin(), ranges_.end(), rangeComp_)` (Range.h:557):
 insertion sort with the source comparator. -/
 def sortBy (lt : Range α → Range α → Bool) : List (Range α) → List (Range α)
   | [] => []
@@ -167,9 +167,12 @@ def sortBy (lt : Range α → Range α → Bool) : List (Range α) → List (Ran
 
 variable [LE α] [LT α] [DecidableLE α] [DecidableLT α] [DecidableEq α] [OfNat α 0]
 
-/-- `clean_` (Range.h:538-557): sort, then drop the empty ranges. -/
+/-- `clean_` (Range.h:538-558): drop the empty ranges, then sort.  (Round-2 audit repair: the code
+used to sort first; the comparator is a strict weak order only on the non-empty pairwise disjoint
+ranges, and `std::sort` with the `[0,0[` left by `sliceWith` next to a range straddling 0 was
+undefined behaviour — a crash with 17 or more elements.) -/
 def clean (m : List (Range α)) : List (Range α) :=
-  (sortBy Range.lt m).filter (fun x => !x.isEmpty)
+  sortBy Range.lt (m.filter (fun x => !x.isEmpty))
 
 /-- The merge loop of `addRange`: the first overlapping range is expanded with
 `r`, then with the other overlapping ranges from the last to the second, which
